@@ -71,7 +71,7 @@ Fixpoint trickle (mn : bool) (fuel : nat) (s : store) (i : nat) : R store :=
   match fuel with
   | O => Fault OutOfFuel
   | S fuel' =>
-      lenm1 ← sub1 (size s);
+      lenm1 ← sub1 (ssize s);
       top ← parent lenm1;
       if decide (i <= top) then
         let m := i in
@@ -95,8 +95,8 @@ Fixpoint trickle (mn : bool) (fuel : nat) (s : store) (i : nat) : R store :=
 
 (** heapify (mod.rs:811) *)
 Definition dheapify (s : store) (i : nat) : R store :=
-  if decide (size s <= 1) then Ok s
-  else trickle (on_min_level i) (S (size s)) s i.
+  if decide (ssize s <= 1) then Ok s
+  else trickle (on_min_level i) (S (ssize s)) s i.
 
 (** bubble_up_min / bubble_up_max (mod.rs:946, :964): the grandparent chain *)
 Fixpoint bubble_chain (mn : bool) (fuel : nat) (s : store) (pos : nat) (p : P)
@@ -127,7 +127,7 @@ Fixpoint bubble_chain (mn : bool) (fuel : nat) (s : store) (pos : nat) (p : P)
 
 (** bubble_up (mod.rs:906) *)
 Definition dbubble_up (s : store) (pos idx : nat) : R (nat * store) :=
-  e ← unwrap (map s !! idx);
+  e ← unwrap (smap s !! idx);
   let p := e.2 in
   '(pos', s') ←
     (match pos with
@@ -173,14 +173,14 @@ Fixpoint dheap_build_loop (s : store) (n : nat) : R store :=
   | S k => s1 ← dheapify s k; dheap_build_loop s1 k
   end.
 Definition dheap_build (s : store) : R store :=
-  if decide (size s = 0) then Ok s
-  else top ← parent (size s); dheap_build_loop s (S top).
+  if decide (ssize s = 0) then Ok s
+  else top ← parent (ssize s); dheap_build_loop s (S top).
 
 (** find_min (mod.rs:796), find_max (mod.rs:1007) *)
 Definition find_min (s : store) : option nat :=
-  match size s with 0 => None | _ => Some 0 end.
+  match ssize s with 0 => None | _ => Some 0 end.
 Definition find_max (s : store) : R (option nat * store) :=
-  match size s with
+  match ssize s with
   | 0 => Ok (None, s)
   | 1 => Ok (Some 0, s)
   | 2 => Ok (Some 1, s)
@@ -194,7 +194,7 @@ Definition find_max (s : store) : R (option nat * store) :=
 
 (** peek_min / peek_max (mod.rs:222, :270) *)
 Definition slot_entry (s : store) (pos : nat) : R (option (I * P)) :=
-  i ← getu (heap s) pos; Ok (map s !! i).
+  i ← getu (heap s) pos; Ok (smap s !! i).
 Definition peek_min (s : store) : R (option (I * P)) :=
   match find_min s with None => Ok None | Some pos => slot_entry s pos end.
 Definition peek_max (s : store) : R (option (I * P) * store) :=
@@ -206,9 +206,9 @@ Definition peek_max (s : store) : R (option (I * P) * store) :=
 
 Definition entry_mut (s : store) (pos : nat) (u : I -> I) : R (option (I * P) * store) :=
   i ← getu (heap s) pos;
-  match map s !! i with
+  match smap s !! i with
   | None => Ok (None, s)
-  | Some e => Ok (Some (u e.1, e.2), set_map s (<[i := (u e.1, e.2)]> (map s)))
+  | Some e => Ok (Some (u e.1, e.2), set_map s (<[i := (u e.1, e.2)]> (smap s)))
   end.
 Definition peek_min_mut (s : store) (u : I -> I) : R (option (I * P) * store) :=
   match find_min s with None => Ok (None, s) | Some pos => entry_mut s pos u end.
@@ -242,19 +242,19 @@ Definition pop_max_if (s : store) (f : I -> P -> I * P * bool)
 
 (** push (mod.rs:510) *)
 Definition dpush (s : store) (k : I) (p : P) : R (option P * store) :=
-  match get_index_of keq hash (map s) k with
+  match get_index_of keq hash (smap s) k with
   | Some i =>
-      e ← unwrap (map s !! i);
-      let s1 := set_map s (<[i := (e.1, p)]> (map s)) in
+      e ← unwrap (smap s !! i);
+      let s1 := set_map s (<[i := (e.1, p)]> (smap s)) in
       pos ← getu (qp s1) i;
       s2 ← dup_heapify s1 pos;
       Ok (Some e.2, s2)
   | None =>
-      let s1 := set_map s (map s ++ [(k, p)]) in
-      let i := size s1 in
+      let s1 := set_map s (smap s ++ [(k, p)]) in
+      let i := ssize s1 in
       let s2 := set_heap (set_qp s1 (qp s1 ++ [i])) (heap s1 ++ [i]) in
       '(_, s3) ← dbubble_up s2 i i;
-      Ok (None, set_size s3 (S (size s3)))
+      Ok (None, set_size s3 (S (ssize s3)))
   end.
 
 Definition dpush_increase (s : store) (k : I) (p : P) : R (option P * store) :=
@@ -289,7 +289,7 @@ Definition dpq_remove (s : store) (k : I) : R (option (I * P) * store) :=
   match r with
   | None => Ok (None, s1)
   | Some (i, p, pos) =>
-      s2 ← (if decide (pos < size s1) then dup_heapify s1 pos else Ok s1);
+      s2 ← (if decide (pos < ssize s1) then dup_heapify s1 pos else Ok s1);
       Ok (Some (i, p), s2)
   end.
 
@@ -327,6 +327,6 @@ Fixpoint dpop_all (mn : bool) (fuel : nat) (s : store) (acc : list (I * P))
       end
   end.
 Definition into_sorted_vec_dir (mn : bool) (s : store) : R (list (I * P) * store) :=
-  dpop_all mn (S (size s)) s [].
+  dpop_all mn (S (ssize s)) s [].
 
 End DPQ.
